@@ -1427,3 +1427,177 @@ def run_filters(prop, tier, seed):
     ev['coverage'] = dict(queries=len(results), results=results, native_scenarios=len(outs), native_scenarios_failing=len(bad), check='filters_preserve_safety')
     ev['wall_s'] = round(time.time() - t0, 1)
     return ev
+
+
+# ---------------------------------------------------------------------------------------------
+# tojson (C16, narrow): the HTML-safe post-processing of the serializer's text, decided with the character
+# SYMBOLIC: for every char c the closure appends the \u00XX escape iff c is one of < > & ' and c itself otherwise
+# ---------------------------------------------------------------------------------------------
+def dump_mir_json(repo, out_dir):
+    os.makedirs(out_dir, exist_ok=True)
+    lib = os.path.join(repo, 'minijinja', 'src', 'lib.rs')
+    os.utime(lib, None)
+    env = dict(os.environ, CARGO_NET_OFFLINE='true', CARGO_TARGET_DIR=os.path.join(out_dir, 'target'))
+    p = subprocess.run(['cargo', '+nightly', 'rustc', '--offline', '--lib', '--features', 'fuel,loop_controls,json', '--', '-Zunpretty=mir', '-C', 'debug-assertions=off'],
+                       cwd=os.path.join(repo, 'minijinja'), env=env, stdout=subprocess.PIPE, stderr=subprocess.PIPE, text=True, timeout=900)
+    if p.returncode != 0 or 'fn ' not in p.stdout:
+        raise MirError('MIR dump (json feature) failed: ' + p.stderr[-600:])
+    return p.stdout
+
+
+SPEC_ESCAPES = {60: '\\u003c', 62: '\\u003e', 38: '\\u0026', 39: '\\u0027'}
+
+
+def check_tojson_escape(mir):
+    """-> (verdict, info, seconds, stats); info for sat: dict(char=int, impl=.., spec=..)"""
+    cands = [m.group(0) for m in re.finditer(r'^fn filters::builtins::tojson::\{closure#\d+\}\(', mir, re.M)]
+    fn = None
+    for hdr in cands:
+        text = function_text(mir, '^' + re.escape(hdr))
+        if text and 'as Iterator>::next(' in text and ': char)' in text:
+            fn = parse_function(text)
+            break
+    if fn is None:
+        return 'unknown', dict(kind='the character loop of tojson was not found in the MIR'), 0.0, {}
+    # the switch on the current character
+    char_locals = set()
+    for b in fn['blocks'].values():
+        for st in b['stmts']:
+            m = re.match(r'(_\d+) = copy \(\(_\d+ as Some\)\.0: char\);', st)
+            if m:
+                char_locals.add(m.group(1))
+    consts = {}
+    for b in fn['blocks'].values():
+        for st in b['stmts']:
+            m = re.match(r'(_\d+) = const "(.*)";$', st)
+            if m:
+                consts[m.group(1)] = m.group(2).encode().decode('unicode_escape')
+    sw = [(bid, b) for bid, b in fn['blocks'].items() if re.match(r'switchInt\(copy (_\d+)\)', b['term']) and re.match(r'switchInt\(copy (_\d+)\)', b['term']).group(1) in char_locals]
+    marks_safe = any(re.search(r'value::Value::from_safe_string\(', b['term']) for b in fn['blocks'].values())
+    c = z3.Int('c')
+    s_ = z3.Solver()
+    s_.set('timeout', 30000)
+    s_.add(c >= 0, c <= 0x10FFFF)
+    ids = {}
+
+    def sid(text):
+        if text not in ids:
+            ids[text] = len(ids) + 1
+        return ids[text]
+
+    def action_from(bid):
+        """what the straight-line code starting at bid appends before it returns to the loop head: ('raw',) | ('const', text) | None"""
+        cur = bid
+        for _ in range(6):
+            t = fn['blocks'][cur]['term']
+            _, callee = call_of(t)
+            if callee:
+                m = re.match(r'std::string::String::push\((?:move|copy) _\d+, copy (_\d+)\)', callee)
+                if m and m.group(1) in char_locals:
+                    return ('raw',)
+                m = re.match(r'std::string::String::push_str\((?:move|copy) _\d+, (?:move|copy) (_\d+)\)', callee)
+                if m and m.group(1) in consts:
+                    return ('const', consts[m.group(1)])
+                return None
+            nxt = successors(t)
+            if len(nxt) != 1:
+                return None
+            cur = nxt[0][1]
+        return None
+    if len(sw) == 0:
+        # no dispatch on the character at all: every character is appended as it is (or something we cannot read)
+        impl = z3.IntVal(0)
+        values = []
+    else:
+        bid, b = sw[0]
+        m = re.match(r'switchInt\(copy (_\d+)\) -> \[(.*)\];', b['term'])
+        values = []
+        other = None
+        for part in m.group(2).split(', '):
+            k, tgt = part.split(': ')
+            act = action_from(tgt)
+            if act is None:
+                return 'unknown', dict(kind='cannot read what the arm for %s appends' % k), 0.0, {}
+            term = z3.IntVal(0) if act[0] == 'raw' else z3.IntVal(sid(act[1]))
+            if k == 'otherwise':
+                other = term
+            else:
+                values.append((int(k), term))
+        impl = other if other is not None else z3.IntVal(-1)
+        for v, term in values:
+            impl = z3.If(c == v, term, impl)
+    spec = z3.IntVal(0)
+    for v, text in SPEC_ESCAPES.items():
+        spec = z3.If(c == v, z3.IntVal(sid(text)), spec)
+    s_.add(impl != spec)
+    t0 = time.time()
+    r = s_.check()
+    dt = time.time() - t0
+    stats = dict(switch_values=sorted(v for v, _ in values), marks_result_safe=marks_safe)
+    if not marks_safe:
+        return 'unsat_safe', dict(kind='the post-processed text is not handed out through Value::from_safe_string'), dt, stats
+    if r == z3.unsat:
+        return 'sat', None, dt, stats          # no character on which implementation and specification differ
+    if r == z3.sat:
+        ch = s_.model()[c].as_long()
+        return 'unsat', dict(kind='for the character U+%04X the closure does not append what the specification says' % ch, char=ch), dt, stats
+    return str(r), None, dt, stats
+
+
+def run_tojson(prop, tier, seed):
+    t0 = time.time()
+    ev = dict(engine='M', violations=[], known_hits=[], problems=[], coverage={})
+    try:
+        mir = dump_mir_json(REPO, os.path.join(BUILD, 'mir'))
+    except MirError as e:
+        ev['problems'].append('engine M: %s' % e)
+        return ev
+    verdict, info, dt, stats = check_tojson_escape(mir)
+    err = build_tool('render')
+    if err:
+        ev['problems'].append('engine M: render tool did not build')
+        return ev
+    # native: every special character (and the solver's character, if any) inside a string, a key and nested
+    chars = sorted(set(list(SPEC_ESCAPES) + ([info['char']] if info and 'char' in info else [])))
+    reqs = [dict(src='{{ v|tojson }}', ctx={'v': {'k' + chr(ch): ['x' + chr(ch) + 'y']}}) for ch in chars]
+    inp = '\n'.join(json.dumps(q) for q in reqs) + '\n'
+    p = subprocess.run([os.path.join(BUILD, 'native', 'debug', 'render')], input=inp, stdout=subprocess.PIPE, stderr=subprocess.PIPE, text=True, timeout=120)
+    outs = [json.loads(l) for l in p.stdout.split('\n') if l.strip()]
+    bad = []
+    for ch, o in zip(chars, outs):
+        text = o.get('ok')
+        if text is None:
+            bad.append((ch, 'render failed: %s' % o))
+            continue
+        if ch in SPEC_ESCAPES:
+            if chr(ch) in text or text.count(SPEC_ESCAPES[ch]) != 2:
+                bad.append((ch, 'tojson of a value holding %r renders %r' % (chr(ch), text)))
+        else:
+            try:
+                back = json.loads(text)
+                if back != {'k' + chr(ch): ['x' + chr(ch) + 'y']}:
+                    bad.append((ch, 'tojson output %r does not parse back to the value' % text))
+            except Exception:
+                bad.append((ch, 'tojson output %r is not valid JSON' % text))
+    res = dict(function='filters::tojson::{closure}', verdict=verdict, z3_s=round(dt, 3), conflict=(info or {}).get('kind'), **stats)
+    if verdict == 'sat':
+        if bad:
+            ev['problems'].append('engine M: tojson misbehaves natively (%s) although the closure matches the specification for every character' % bad[0][1][:200])
+    elif verdict in ('unsat', 'unsat_safe'):
+        if bad or verdict == 'unsat_safe':
+            rp = os.path.join(nativelib.replay_dir(), '%s-M-tojson.json' % prop)
+            json.dump(dict(engine='M', kind='tojson', property=prop, mir_finding=res, requests=reqs, chars=chars,
+                           how='bin/check %s --replay %s' % (prop, rp)), open(rp, 'w'), indent=1)
+            if bad:
+                ev['violations'].append(dict(replay=rp, failed=[dict(desc='tojson post-processing: %s; natively: %s' % (res['conflict'], bad[0][1][:220]),
+                                                                     loc='minijinja/src/filters.rs tojson (MIR)')]))
+            else:
+                ev['problems'].append('engine M: tojson: %s, not observable with the native probes' % res['conflict'])
+        else:
+            ev['problems'].append('engine M: tojson: %s, but the native renders are as specified' % res['conflict'])
+    else:
+        ev['problems'].append('engine M: tojson: %s %s' % (verdict, res.get('conflict') or ''))
+    log('[%s] engine M (tojson closure, symbolic character): %s %s; %d native renders, %d wrong' % (prop, verdict, stats, len(outs), len(bad)))
+    ev['coverage'] = dict(queries=1, results=[res], native_scenarios=len(outs), native_scenarios_failing=len(bad), check='tojson_html_safe')
+    ev['wall_s'] = round(time.time() - t0, 1)
+    return ev
